@@ -969,6 +969,36 @@ func checkC14(h *XHistory) {
 			if !waiting || c.End < te {
 				continue
 			}
+			// the connection had answered somebody before this call started (for
+			// this call it came out of the pool), the server stays up and
+			// answers everything: the retry on another connection succeeds
+			reused := false
+			for _, q := range u.Queries {
+				if q.Token != c.C.Token || q.At >= te {
+					continue
+				}
+				for _, r := range u.Replies {
+					if r.Conn == q.Conn && r.Token != q.Token && r.Kind == "reply" && r.At+us(h.XP.Net.UpLatUs[1]) < c.Start {
+						reused = true
+					}
+				}
+			}
+			others := 0
+			for _, e2 := range h.Events {
+				if e2.Up == e.Up {
+					others++
+				}
+			}
+			delay := time.Duration(0)
+			if t := h.XP.Tokens[c.C.Token]; t != nil && len(t.Acts) > 0 {
+				delay = us(t.Acts[0].DelayUs)
+			}
+			if reused && allReply && !faulty && !closedAny && others == 1 && h.XP.IdleMs == 0 && c.C.CancelUs == 0 && len(h.XP.Net.Partitions) == 0 && h.XP.Net.UpDup == 0 && c.Start+c.Limit > te+delay+2*time.Second+sigma {
+				s.Probe("c14_waiter_on_reused_conn_checked")
+				if c.Msg == nil {
+					s.Fail("C14", "failed-against-healthy-server", "call %d (token %s) was waiting on a pooled connection of upstream %s (it had answered before) when the server reset it at %v and kept listening; the retry on another connection must succeed, the call failed at %v: %s", c.C.Idx, c.C.Token, u.Spec.Tag, te, c.End, c.Err)
+				}
+			}
 			s.Probe("c14_waiter_on_dead_conn")
 			left := c.End <= te+time.Second+us(h.XP.Net.UpLatUs[1])+sigma
 			for _, q := range u.Queries {
